@@ -1,6 +1,6 @@
 """Tie of Model/PathReverse.v (C07, the object-level glue) to the real library, evaluated on every run of the check.
 
-Correspondence (see .work/prover_C07_TIE.md), one ray (i, j) of real arim objects at a time:
+Correspondence (see notes/prover_C07_TIE.md), one ray (i, j) of real arim objects at a time:
 
   stream  model (Coq, vm_compute on exact rationals NumQ)            arim (real objects, public API)
   ------  ---------------------------------------------------------  ---------------------------------------------------
